@@ -85,7 +85,7 @@ pub fn project(name: &str) -> Project {
             tfile(&mut plain, "plain.txt", "plain\n");
             tfile(&mut plain, "gen/keep", "keep\n");
             decoys(&mut plain, &["", "gen"]);
-            let a = |x: &str| format!("{x}\nTXTPP#include b.txt\nTXTPP#after b.txt\n-TXTPP#run cat b.txt\n+TXTPP#run echo x >> ../m/a\nA2\n");
+            let a = |x: &str| format!("{x}\n-TXTPP#run echo x >> ../m/a0\nTXTPP#include b.txt\nTXTPP#after b.txt\n-TXTPP#run cat b.txt\n+TXTPP#run echo x >> ../m/a\nA2\n");
             let b = |x: &str| format!("{x}\nTXTPP#include plain.txt\n-TXTPP#temp gen/b.tmp\n-tb {x}\n-\nB2\n");
             Project {
                 name: name.into(),
